@@ -85,8 +85,10 @@ func farmGovWiring() depinject.Config {
 }
 
 func farmEscrowAccount(app *simapp.SimApp) {
-	app.AccountKeeper.GetModulePermissions()[farmtypes.EscrowCollector] =
-		authtypes.NewPermissionsForAddress(farmtypes.EscrowCollector, nil)
+	perms := app.AccountKeeper.GetModulePermissions()
+	if _, ok := perms[farmtypes.EscrowCollector]; !ok {
+		perms[farmtypes.EscrowCollector] = authtypes.NewPermissionsForAddress(farmtypes.EscrowCollector, nil)
+	}
 }
 
 // govGenesis sets short governance periods and small deposits (configuration).
